@@ -7,11 +7,11 @@ CONSTANTS
   MaxChunks = 3
   Kinds = {"rot", "flush", "flush0"}
   Windows = "chunks"
-  MaxFaults = 0
+  MaxFaults = 1
   MaxSyncFaults = 0
-  AdvanceOnFailure = FALSE
+  AdvanceOnFailure = TRUE
   ExactMax = 100
   TolDiv = 50
 SPECIFICATION Spec
-INVARIANTS TypeOK Contiguous NoEarlyRotation NoOverdueAdd EveryAddInExactlyOneChunk StampCoversContent ReaderIsContract Emit
+INVARIANTS StampCoversContent
 CHECK_DEADLOCK FALSE
